@@ -10,6 +10,7 @@ DRIVER = os.path.join(LEAN, ".lake", "build", "bin", "driver")
 HARNESS_DIR = os.path.join(VERIF, "harness")
 TARGET = os.path.join(WORK, "target")
 if REPO != "/repo":
+    EVIDENCE_DIR_OVERRIDE = os.path.join(WORK, "selftest-evidence")
     # self-test mode: the same harness sources built against a scratch copy of the repository
     _tag = hashlib.sha1(REPO.encode()).hexdigest()[:8]
     TARGET = os.path.join(WORK, "alt-target-" + _tag)
@@ -265,7 +266,7 @@ def ledger_check(case, out, allow_leak_after_panic=False):
     panicked = False
     forgot = False
     kind = case[0].split()[2] if case and case[0].startswith("case") else "t"
-    if kind != "t":
+    if kind not in ("t", "p"):
         # no identities: only crashes, zombies and (for the zero-sized kind) destructor counts
         ng = nd = nr = 0
         last = None
@@ -332,7 +333,8 @@ def ledger_check(case, out, allow_leak_after_panic=False):
 def leak_check(case, out):
     """after the final `drop` every created element must be destroyed or with the caller"""
     problems, st = ledger_check(case, out)
-    if case and case[-1].startswith("drop") and not any(p.startswith("crash") for p in problems):
+    kind = case[0].split()[2] if case and case[0].startswith("case") else "t"
+    if kind == "t" and case and case[-1].startswith("drop") and not any(p.startswith("crash") for p in problems):
         last = Line(out[-1])
         inbuf = set(last.ids())
         for i in sorted(st["created"]):
@@ -354,9 +356,14 @@ def write_replay(pid, kind, payload):
     return path
 
 
+EVIDENCE_DIR = os.path.join(VERIF, "evidence") if REPO == "/repo" else os.path.join(WORK, "selftest-evidence")
+
+
 def write_evidence(pid, ev):
-    os.makedirs(os.path.join(VERIF, "evidence"), exist_ok=True)
-    json.dump(ev, open(os.path.join(VERIF, "evidence", f"{pid}.json"), "w"), indent=1)
+    """evidence of development / self-test runs (--skip-lean, VERIF_REPO) goes to .work, never to evidence/"""
+    d = EVIDENCE_DIR
+    os.makedirs(d, exist_ok=True)
+    json.dump(ev, open(os.path.join(d, f"{pid}.json"), "w"), indent=1)
 
 
 def known_findings():
